@@ -10,6 +10,7 @@
    csum f m = f 0 + ... + f m. *)
 From Coq Require Import QArith List Bool Arith.
 From Allfed Require Import Model.LP Model.LPBool Proofs.LPChar Proofs.LPBoolSound Proofs.LP_C01.
+From Allfed Require Import Gen.UnitTables Model.Units Model.Report Proofs.Units Proofs.Report Proofs.ReportedLedger.
 Import ListNotations.
 Open Scope Q_scope.
 
@@ -256,6 +257,158 @@ Theorem c01_robust_exact : forall i ty a, Feasible_eps 0 i ty a <-> Feasible i t
 Proof. exact Feasible_eps_0. Qed.
 Print Assumptions c01_robust_exact.
 
+(* ================================================================== *)
+(* the same clauses on the REPORTED numbers                            *)
+(* ================================================================== *)
+(* Composition with the Extractor / Interpreter model (Model/Report.v, tied to the code by the C04 correspondence):
+   `report (report_in i c a) = Ok (e, ii)` is what the interpreter returns for the allocation a of the LP built from i,
+   with c the nutrition settings (lp_settings_ok: positive settings, KCALS_MONTHLY and BILLION_KCALS_NEEDED are the
+   ones of c).  Reported unit: kcals per person per day - the saved columns k_* of ii (people's share; outdoor crops =
+   immediate + new stored column) and the per-source feed / biofuel series rf_* / rb_* that the interpreter sums into
+   feed_sum_kcals_equivalent / biofuels_sum_kcals_equivalent.  K = m_ke_bk c is the factor of
+   in_units_bil_kcals_thou_tons_thou_tons_per_month (== 30 * population / 1e9) back to billion kcals per month.
+   rep_X_use = gross(waste) * people's share + feed + biofuel, in the reported unit. *)
+
+Theorem c01_reported_factor : forall c, positive_settings c ->
+  m_ke_bk c == 30 * population c / 1000000000 /\ 0 < m_ke_bk c.
+Proof. intros c P. split; [exact (m_ke_bk_formula c P)|exact (m_ke_bk_pos c P)]. Qed.
+Print Assumptions c01_reported_factor.
+
+(* every reported use, converted back, IS the ledger use of the theorems above *)
+Theorem c01_reported_is_ledger_use : forall i c a e ii, lp_settings_ok i c -> report (report_in i c a) = Ok (e, ii) ->
+  forall m, (m < NM i)%nat ->
+  (add_sf i = true -> m_ke_bk c * rep_sf_use i c a ii m == sf_use i a m) /\
+  (add_cr i = true -> m_ke_bk c * rep_cr_use i c a ii m == cr_use i a m) /\
+  (add_sw i = true -> m_ke_bk c * rep_sw_use i c a ii m == sw_kcals i * sw_use i a m) /\
+  (add_cs i = true -> m_ke_bk c * rep_cs_use i c a ii m == cs_use i a m) /\
+  (add_scp i = true -> m_ke_bk c * rep_scp_use i c a ii m == scp_use i a m) /\
+  (add_meat i = true -> m_ke_bk c * rep_meat_use i ii m == meat_use i a m).
+Proof. exact back_uses. Qed.
+Print Assumptions c01_reported_is_ledger_use.
+
+(* nothing reported is negative: people's shares (saved columns, and the percent series), the part of crops eaten
+   from new storage, every per-source feed and biofuel series *)
+Theorem c01_reported_nonneg : forall i c ty a e ii, lp_settings_ok i c -> Feasible i ty a ->
+  report (report_in i c a) = Ok (e, ii) -> 0 <= sw_kcals i -> forall m, (m < NM i)%nat ->
+  (0 <= rh_sf ii m /\ 0 <= rh_cr ii m /\ 0 <= rh_sw ii m /\ 0 <= rh_cs ii m /\ 0 <= rh_scp ii m /\ 0 <= rh_meat ii m /\
+   0 <= nthq (k_ns ii) m) /\
+  (0 <= rf_sf i c a m /\ 0 <= rf_cr i c a m /\ 0 <= rf_sw i c a m /\ 0 <= rf_cs i c a m /\ 0 <= rf_scp i c a m) /\
+  (0 <= rb_sf i c a m /\ 0 <= rb_cr i c a m /\ 0 <= rb_sw i c a m /\ 0 <= rb_cs i c a m /\ 0 <= rb_scp i c a m) /\
+  (0 <= nthq (p_sf ii) m /\ 0 <= nthq (p_cr ii) m /\ 0 <= nthq (p_sw ii) m /\ 0 <= nthq (p_cs ii) m /\
+   0 <= nthq (p_scp ii) m /\ 0 <= nthq (p_meat ii) m /\ 0 <= nthq (p_ns ii) m).
+Proof. exact rl_nonneg. Qed.
+Print Assumptions c01_reported_nonneg.
+
+(* ... with ONE exception (refuted): the column "outdoor crops eaten immediately" can be negative for a feasible
+   allocation of an admissible input - a month without harvest in which stored crops go to feed (the extractor
+   subtracts feed and biofuel in billion people fed from production in billion kcals); immediate + new stored still
+   equals the crops eaten (c04_split) *)
+Theorem c01_reported_immediate_crops_negative_refuted :
+  exists i c a e ii, lp_settings_ok i c /\ admissible i /\ Feasible i ToHumans a /\
+    report (report_in i c a) = Ok (e, ii) /\ nthq (k_imm ii) 1 < 0 /\ nthq (p_imm ii) 1 < 0.
+Proof. exact reported_immediate_crops_can_be_negative. Qed.
+Print Assumptions c01_reported_immediate_crops_negative_refuted.
+
+(* foods that are supplies, not variables: the reported series is the supply itself *)
+Theorem c01_reported_given : forall i c a e ii, lp_settings_ok i c ->
+  report (report_in i c a) = Ok (e, ii) -> forall m, (m < NM i)%nat ->
+  m_ke_bk c * nthq (k_fish ii) m == at_ (fish i) m /\ m_ke_bk c * nthq (k_gh ii) m == at_ (greenhouse i) m /\
+  m_ke_bk c * nthq (k_milk ii) m == at_ (milk i) m.
+Proof. exact rl_given. Qed.
+Print Assumptions c01_reported_given.
+
+(* SCP and cellulosic sugar: reported use of a month within that month's output *)
+Theorem c01_reported_scp_cs : forall i c ty a e ii, lp_settings_ok i c -> Feasible i ty a ->
+  report (report_in i c a) = Ok (e, ii) ->
+  (add_scp i = true -> forall m, (m < NM i)%nat -> m_ke_bk c * rep_scp_use i c a ii m <= at_ (scp_prod i) m) /\
+  (add_cs i = true -> forall m, (m < NM i)%nat -> m_ke_bk c * rep_cs_use i c a ii m <= at_ (cs_prod i) m).
+Proof.
+  intros i c ty a e ii S F R. split; intros Hb.
+  - exact (rl_scp i c ty a e ii S F R Hb).
+  - exact (rl_cs i c ty a e ii S F R Hb).
+Qed.
+Print Assumptions c01_reported_scp_cs.
+
+(* stored food: cumulative reported use never exceeds the initial stock; nothing reported after the first year in the
+   first-year-only regime *)
+Theorem c01_reported_stored : forall i c ty a e ii, lp_settings_ok i c -> Feasible i ty a ->
+  report (report_in i c a) = Ok (e, ii) -> add_sf i = true ->
+  (forall m, (m < NM i)%nat -> csum (fun k => m_ke_bk c * rep_sf_use i c a ii k) m <= sf0 i) /\
+  (store_years i = false -> forall m, (12 < m)%nat -> (m < NM i)%nat -> rep_sf_use i c a ii m == 0).
+Proof.
+  intros i c ty a e ii S F R Hb. split.
+  - exact (rl_stored i c ty a e ii S F R Hb).
+  - exact (rl_stored_after_first_year i c ty a e ii S F R Hb).
+Qed.
+Print Assumptions c01_reported_stored.
+
+(* outdoor crops: cumulative reported use never exceeds what has been harvested so far *)
+Theorem c01_reported_crops : forall i c ty a e ii, lp_settings_ok i c -> Feasible i ty a ->
+  report (report_in i c a) = Ok (e, ii) -> add_cr i = true -> forall m, (m < NM i)%nat ->
+  csum (fun k => m_ke_bk c * rep_cr_use i c a ii k) m <= csum (at_ (crops_prod i)) m.
+Proof. exact rl_crops. Qed.
+Print Assumptions c01_reported_crops.
+
+(* meat: both regimes, and "never more than slaughtered so far" under the same hypothesis as c01_meat_slaughtered *)
+Theorem c01_reported_meat : forall i c ty a e ii, lp_settings_ok i c -> Feasible i ty a ->
+  report (report_in i c a) = Ok (e, ii) -> add_meat i = true ->
+  (store_years i = true -> forall m, (m < NM i)%nat ->
+     csum (fun k => m_ke_bk c * rep_meat_use i ii k) m <= at_ (meat_running i) m /\
+     csum (fun k => m_ke_bk c * rep_meat_use i ii k) m <= meat_total i) /\
+  (store_years i = false -> forall m, (m < NM i)%nat -> m_ke_bk c * rep_meat_use i ii m <= at_ (meat_monthly i) m) /\
+  ((store_years i = true -> forall m, (m < NM i)%nat -> at_ (meat_running i) m <= csum (at_ (meat_monthly i)) m) ->
+   forall m, (m < NM i)%nat -> csum (fun k => m_ke_bk c * rep_meat_use i ii k) m <= csum (at_ (meat_monthly i)) m).
+Proof.
+  intros i c ty a e ii S F R Hb. split; [|split].
+  - exact (rl_meat_store i c ty a e ii S F R Hb).
+  - exact (rl_meat_nostore i c ty a e ii S F R Hb).
+  - exact (rl_meat_slaughtered i c ty a e ii S F R Hb).
+Qed.
+Print Assumptions c01_reported_meat.
+
+(* seaweed: the farm ledger with the reported kcals (SEAWEED_KCALS per wet unit) in place of the variables *)
+Theorem c01_reported_seaweed : forall i c ty a e ii, lp_settings_ok i c -> Feasible i ty a ->
+  report (report_in i c a) = Ok (e, ii) -> add_sw i = true -> 0 < sw_kcals i -> forall p, (S p < NM i)%nat ->
+  a SW_wet (S p) ==
+  a SW_wet p * (1 + at_ (growth i) (S p) / 100) - m_ke_bk c * rep_sw_use i c a ii (S p) / sw_kcals i
+  - (a SW_area (S p) - a SW_area p) * sw_min_density i * (sw_harvest_loss i / 100).
+Proof. exact rl_seaweed. Qed.
+Print Assumptions c01_reported_seaweed.
+
+(* feed and biofuel totals handed on by the interpreter: sum of the five per-source series; equal to the amounts
+   charged in the rounds that maximise people fed; within the ceilings and never increasing in the feed round;
+   zero when no food can go to animals *)
+Theorem c01_reported_totals : forall i c a, lp_settings_ok i c -> forall m, (m < NM i)%nat ->
+  (nthq (feed_sum_ke (fb_of i c a)) m = rf_cs i c a m + rf_scp i c a m + rf_sw i c a m + rf_cr i c a m + rf_sf i c a m /\
+   nthq (biofuels_sum_ke (fb_of i c a)) m = rb_cs i c a m + rb_scp i c a m + rb_sw i c a m + rb_cr i c a m + rb_sf i c a m) /\
+  (m_ke_bk c * nthq (feed_sum_ke (fb_of i c a)) m == feed_sum i a m /\
+   m_ke_bk c * nthq (biofuels_sum_ke (fb_of i c a)) m == biofuel_sum i a m).
+Proof. intros i c a S m Hm. split; [exact (rl_total_is_sum i c a m Hm)|exact (rl_total_back i c a S m Hm)]. Qed.
+Print Assumptions c01_reported_totals.
+
+Theorem c01_reported_humans_charges : forall i c a, lp_settings_ok i c -> Feasible i ToHumans a ->
+  has_nonhuman i = true -> forall m, (m < NM i)%nat ->
+  m_ke_bk c * nthq (feed_sum_ke (fb_of i c a)) m == at_ (feed_charge i) m /\
+  m_ke_bk c * nthq (biofuels_sum_ke (fb_of i c a)) m == at_ (biofuel_charge i) m.
+Proof. exact rl_humans_charges. Qed.
+Print Assumptions c01_reported_humans_charges.
+
+Theorem c01_reported_animals : forall i c a, lp_settings_ok i c -> Feasible i ToAnimals a ->
+  has_nonhuman i = true -> forall m, (m < NM i)%nat ->
+  m_ke_bk c * nthq (feed_sum_ke (fb_of i c a)) m <= at_ (max_feed i) m /\
+  m_ke_bk c * nthq (biofuels_sum_ke (fb_of i c a)) m <= at_ (max_biofuel i) m /\
+  (forall k, (k <= m)%nat ->
+     m_ke_bk c * nthq (feed_sum_ke (fb_of i c a)) m <= m_ke_bk c * nthq (feed_sum_ke (fb_of i c a)) k /\
+     m_ke_bk c * nthq (biofuels_sum_ke (fb_of i c a)) m <= m_ke_bk c * nthq (biofuels_sum_ke (fb_of i c a)) k).
+Proof. exact rl_animals. Qed.
+Print Assumptions c01_reported_animals.
+
+Theorem c01_reported_no_nonhuman : forall i c a, lp_settings_ok i c -> has_nonhuman i = false ->
+  forall m, (m < NM i)%nat ->
+  nthq (feed_sum_ke (fb_of i c a)) m == 0 /\ nthq (biofuels_sum_ke (fb_of i c a)) m == 0.
+Proof. exact rl_no_nonhuman. Qed.
+Print Assumptions c01_reported_no_nonhuman.
+
 (* ---------- non-vacuity: the hypotheses are satisfiable, by computation ---------- *)
 (* N = 3; stored food (stock 30, 20 % waste), crops (harvest 18/12/20, 10 % waste) and SCP on *)
 Example c01_example_humans :
@@ -273,3 +426,9 @@ Example c01_example_animals :
 Proof.
   split; [reflexivity|]. split; [exact ex_feasible_animals | exact ex_feasible2_animals].
 Qed.
+
+(* the reported-level theorems are not vacuous: the example instance has settings and an accepted report *)
+Example c01_example_reported :
+  lp_settings_ok ex_in ex_conv01 /\
+  match report (report_in ex_in ex_conv01 (a_of ex_tbl_h)) with Ok _ => True | Rejected _ => False end.
+Proof. split; [exact ex_settings|exact ex_report_accepted]. Qed.
